@@ -350,7 +350,7 @@ spiftool_split(const spif_charptr_t delim, const spif_charptr_t str)
     register spif_charptr_t pstr;
     register spif_charptr_t pdest;
     char quote = 0;
-    unsigned short cnt = 0;
+    unsigned long cnt = 0;
     unsigned long len;
 
     REQUIRE_RVAL(str != NULL, (spif_charptr_t *) NULL);
